@@ -65,7 +65,9 @@ func c11Run(in *hub.Instance, cs c11Case) c11Res {
 	rate := sdk.MustNewDecFromStr(c11Rates[cs.RateIdx])
 	g := StdGenesis(val, []int64{10, 10, 10}, []sdk.AccAddress{user}, nil)
 	g.Hub.TokenInfos = &mhubtypes.TokenInfos{TokenInfos: []*mhubtypes.TokenInfo{{Id: 1, Denom: "hub", ChainId: "ethereum", ExternalTokenId: EthHub, ExternalDecimals: cs.Dec, Commission: rate},
-		{Id: 2, Denom: "hub", ChainId: "bsc", ExternalTokenId: BscHub, ExternalDecimals: 18, Commission: rate}}}
+		// the bsc listing has the SAME contract address as the ethereum one (a token deployed at one address on both
+		// chains) and its own decimals: decimals belong to the (chain, id) pair
+		{Id: 2, Denom: "hub", ChainId: "bsc", ExternalTokenId: EthHub, ExternalDecimals: 18, Commission: rate}}}
 	hv := c11HolderValues()[cs.HoldIdx]
 	switch cs.HoldWho {
 	case 1:
